@@ -260,14 +260,15 @@ def run_unit(unit, tier='quick', seed=0):
         res['status'] = 'undecided'
         res['undecided'].append('assume()/admit() present in assembled file: ' + '; '.join(f'{o}:{l}' for l, o, _ in forbidden[:5]))
     rlimit = cfg.get('rlimit', 20)
+    cfg_args = [x for c in cfg.get('cfg', []) for x in ('--cfg', c)]
     seeds = [None] if tier == 'quick' else [None, 1 + seed % 1000, 7 + seed % 1000]
     runs = []
     with cf.ThreadPoolExecutor(max_workers=4) as ex:
         futs = []
         for k, sd in enumerate(seeds):
             ld = os.path.join(wdir, f'log{k}') if k == 0 else None
-            futs.append(('main', sd, ex.submit(run_verus, path, rlimit, ld, sd)))
-        futs.append(('canary', None, ex.submit(run_verus, cpath, rlimit, None, None)))
+            futs.append(('main', sd, ex.submit(run_verus, path, rlimit, ld, sd, cfg_args)))
+        futs.append(('canary', None, ex.submit(run_verus, cpath, rlimit, None, None, cfg_args)))
         for role, sd, f in futs:
             runs.append((role, sd, f.result()))
     res['checker_cmds'] = [r['cmd'] for role, sd, r in runs if role == 'main']
